@@ -29,6 +29,7 @@ struct Node {
     r: i32,
     p: i32,
     ch: Vec<usize>,
+    h: u64,
 }
 
 fn build(g: &mut Game, r: i32, ply: i32, is_root: bool, nodes: &mut Vec<Node>) -> usize {
@@ -37,7 +38,7 @@ fn build(g: &mut Game, r: i32, ply: i32, is_root: bool, nodes: &mut Vec<Node>) -
     let side = if player == crate::chess::Player::White { 1 } else { -1 };
     let kx = g.king_exists(player);
     let chk = kx && g.is_targeted(g.get_king_position(player), player);
-    nodes.push(Node { ev: g.score() as i32 * side, kx, chk, nm: 0, r, p: ply, ch: vec![] });
+    nodes.push(Node { ev: g.score() as i32 * side, kx, chk, nm: 0, r, p: ply, ch: vec![], h: g.hash() });
     if nodes.len() > MAX_NODES {
         return id;
     }
@@ -82,6 +83,10 @@ pub fn run(args: &Args) {
                 continue;
             }
         };
+        if case.get("tt").is_some() {
+            table_entries(&mut out, &mut cap, &game, &fen, &pre, d);
+            continue;
+        }
         if case.get("win").is_some() {
             windows(&mut out, &mut cap, &case, &game, &fen, &pre, d, &mut rng);
             continue;
@@ -138,6 +143,73 @@ pub fn run(args: &Args) {
         emit(&mut out, e);
     }
     out.flush().unwrap();
+}
+
+/// The fields of a table entry, read through its Debug form (`TableEntry { score: 12, pv: .., depth: 3, flag: Exact }`):
+/// no hook needed, and nothing is reported when the form is not recognised.
+fn entry_fields(dbg: &str) -> Option<Value> {
+    let num = |key: &str| -> Option<i64> {
+        let i = dbg.find(key)? + key.len();
+        let rest = dbg[i..].trim_start();
+        let end = rest.find(|c: char| !(c.is_ascii_digit() || c == '-')).unwrap_or(rest.len());
+        rest[..end].parse().ok()
+    };
+    let flag = if dbg.contains("Exact") {
+        "exact"
+    } else if dbg.contains("LowerBound") {
+        "lower"
+    } else if dbg.contains("UpperBound") {
+        "upper"
+    } else {
+        return None;
+    };
+    Some(json!({"d": num("depth:")?, "score": num("score:")?, "flag": flag}))
+}
+
+/// Design-level binding of PvsTable.tla: search the position to depth 1..d on one table as the engine does, then dump the
+/// tree with, at every interior node, the table entry found under that node's hash.
+fn table_entries(out: &mut crate::play::Out, cap: &mut Capture, game: &Game, fen: &str, pre: &[String], d: i32) {
+    let base = json!({"ev": "tt", "fen": fen, "pre": pre, "d": d});
+    let mut table: TranspositionTable = Default::default();
+    let mut hist = [0u16; 768];
+    let flag = AtomicBool::new(true);
+    verif::reset(u64::MAX, false);
+    cap.begin();
+    let mut okrun = true;
+    for depth in 1..=d {
+        let g2 = game.clone();
+        if guard(|| get_best_move_entry(g2, &flag, depth as u8, &mut table, &mut hist)).is_err() {
+            okrun = false;
+            break;
+        }
+    }
+    let _ = cap.end();
+    let mut nodes: Vec<Node> = vec![];
+    let mut g = game.clone();
+    let built = guard(|| {
+        build(&mut g, d, 0, true, &mut nodes);
+    });
+    if !okrun || built.is_err() || nodes.len() > MAX_NODES {
+        let mut e = base.clone();
+        e["skip"] = json!(if okrun { "tree too large" } else { "search panicked" });
+        emit(out, e);
+        return;
+    }
+    let mut js = nodes_json(&nodes);
+    let mut found = 0;
+    for (i, n) in nodes.iter().enumerate() {
+        if i > 0 && n.r >= 2 {
+            if let Some(f) = table.get(&n.h).and_then(|en| entry_fields(&format!("{:?}", en))) {
+                js[i]["te"] = f;
+                found += 1;
+            }
+        }
+    }
+    let mut e = base.clone();
+    e["n"] = json!(nodes.len());
+    e["entries"] = json!(found);
+    e["nodes"] = json!(js);
+    emit(out, e);
 }
 
 fn nodes_json(nodes: &[Node]) -> Vec<Value> {
